@@ -80,7 +80,13 @@ def MAXA(*args):
 
 @dispatcher.register_for('MEDIAN')
 def MEDIAN(*args):
-    return statistics.median(utils.inumbers(args, try_parse=True))
+    numbers = sorted(utils.inumbers(args, try_parse=True))
+    middle = len(numbers) // 2
+    if len(numbers) % 2 == 1:
+        return numbers[middle]
+    # the exact mean of the two middle items, as AVERAGE takes it: their sum need not be a number
+    # that can be held (two items of 1.5e308, or whole numbers beyond the largest double)
+    return statistics.mean(numbers[middle - 1:middle + 1])
 
 
 @dispatcher.register_for('MIN')
